@@ -92,6 +92,8 @@ pub use streams::{
 mod timer;
 #[cfg(feature = "__verif")]
 mod verif;
+#[cfg(feature = "__verif")]
+pub(crate) mod verif_comp;
 use crate::congestion::Controller;
 use timer::{Timer, TimerTable};
 #[cfg(feature = "__verif")]
